@@ -5,6 +5,7 @@ Transcribed 1:1 (same branches, same order of side effects):
 * `AlertNode.findFirstMatchLevel`, `AlertNode.determineLevel`            → `findFirstMatchLevel`, `determineLevel`
 * `alertState.addEvent`, `updateFlapping`, `updateExpired`, `triggered`,
   `duration`, `currentLevel`                                              → same names
+  (`addEvent` as repaired by the `fix:` commit of findings/C01.txt; the previous body is `addEventOld`)
 * `alertState.Point` (stream form)                                        → `pointStep`
 * `alertState.BufferedBatch` (batch form, incl. `all()`)                  → `batchStep`
 * `AlertNode.restoreEventState` / `newAlertState`                         → `restoreEventState`, `newAlertState`
@@ -170,8 +171,9 @@ def updateExpired (c : Cfg) (s : St) (t : Int) : St :=
 /-- `addEvent(t, level)` -/
 def addEvent (c : Cfg) (flap : FlapFn) (s : St) (t : Int) (l : Nat) : St :=
   let changed := Gen.changedRule { cur := s.history.getD s.idx 0, l := l }
+  let first := if Gen.leftOKRule { changed := changed, cur := s.history.getD s.idx 0 } then some t else s.firstTriggered
   let idx := (s.idx + 1) % s.history.length
-  let s := { s with changed := changed, idx := idx, history := s.history.set idx l }
+  let s := { s with changed := changed, firstTriggered := first, idx := idx, history := s.history.set idx l }
   let s := updateFlapping c flap s
   updateExpired c s t
 
@@ -248,6 +250,26 @@ def batchStep (c : Cfg) (flap : FlapFn) (s : St) (b : Batch) : St × Option Ev :
       let s := triggered s t
       if Gen.batchWithhold (guards c s l) then (s, none)
       else (s, some { level := l, time := t, dur := duration s })
+
+/-! #### The code as it was before the repair recorded in findings/C01.txt (kept for the counterexample theorems):
+`addEvent` did not touch `firstTriggered`; only `triggered` did, which a suppressed event never reaches. -/
+
+def addEventOld (c : Cfg) (flap : FlapFn) (s : St) (t : Int) (l : Nat) : St :=
+  let changed := s.history.getD s.idx 0 != l
+  let idx := (s.idx + 1) % s.history.length
+  let s := { s with changed := changed, idx := idx, history := s.history.set idx l }
+  let s := updateFlapping c flap s
+  updateExpired c s t
+
+def pointStepOld (c : Cfg) (flap : FlapFn) (s : St) (p : Pt) : St × Option Ev :=
+  let l := determineLevel c p (currentLevel s)
+  let s := addEventOld c flap s p.t l
+  if Gen.pointSuppress (guards c s l) then (s, none)
+  else if Gen.pointSend (guards c s l) then
+    let s := triggered s p.t
+    if Gen.pointWithhold (guards c s l) then (s, none)
+    else (s, some { level := l, time := p.t, dur := duration s })
+  else (s, none)
 
 /-- `restoreEventState(id, t, tags)`: `t` = time of the group's first message; `(level, stored)` = what `restoreEvent`
 found in the topic. -/
